@@ -29,6 +29,7 @@ import (
 
 type vCall struct {
 	cmd, netType, ifName, container string
+	rawArgs                         string
 	args                            map[string]string
 	hasPrev                         bool
 	prevIP                          string
@@ -46,7 +47,7 @@ func vResultFor(n int) *t020.Result {
 }
 
 func vRecord(cmd string, netconf map[string]interface{}, args *skel.CmdArgs, ifName string) int {
-	c := vCall{cmd: cmd, ifName: ifName, container: args.ContainerID}
+	c := vCall{cmd: cmd, ifName: ifName, container: args.ContainerID, rawArgs: args.Args}
 	c.netType, _ = netconf["type"].(string)
 	c.args, _ = cniutil.ParseCNIArgs(args.Args)
 	if prev, ok := netconf["prevResult"]; ok {
@@ -124,7 +125,7 @@ func vCalls() []vCall {
 		if len(f) != 6 {
 			continue
 		}
-		c := vCall{cmd: f[0], netType: f[1], ifName: f[2], container: f[3]}
+		c := vCall{cmd: f[0], netType: f[1], ifName: f[2], container: f[3], rawArgs: f[4]}
 		c.args, _ = cniutil.ParseCNIArgs(f[4])
 		var conf struct {
 			PrevResult *struct {
@@ -309,4 +310,25 @@ func VerifC12_q_requestsIsolated() {
 	verifAssert("C12/isolated-nothing-extra", len(log) == next, "more invocations than selected for the second container")
 	_ = cniutil.CmdDel(vReq("verif-a", dir).CmdArgs, -1)
 	_ = cniutil.CmdDel(vReq("verif-b", dir).CmdArgs, -1)
+}
+
+
+// vFirstArgs / vRawArgs: the CNI_ARGS string the first plugin of the last request received.
+func vFirstArgs() string { return vRawArgs() }
+
+func vRawArgs() string {
+	calls := vCalls()
+	for _, c := range calls {
+		if c.cmd == "ADD" {
+			return c.rawArgs
+		}
+	}
+	return ""
+}
+
+func vAs020(r types.Result) (*t020.Result, error) {
+	if x, ok := r.(*t020.Result); ok {
+		return x, nil
+	}
+	return nil, fmt.Errorf("not a 0.2.0 result")
 }
